@@ -54,7 +54,10 @@ CONSTANTS
   Classes,      \* relay-URL classes the broker may return in this configuration
   MaxNoOffer,   \* generation bounds, written as action guards
   MaxTimeouts,
-  EnvAtQuiet    \* TRUE: environment steps only when the proxy is at rest (replayable behaviours)
+  EnvAtQuiet,   \* TRUE: environment steps only when the proxy is at rest (replayable behaviours)
+  GenNoFaults,  \* generation only: TRUE switches the failing environment choices off
+  GenHold       \* generation only: relayed connections end only while at least GenHold are open
+                \* (or the session bound is exhausted); 0 = no restriction
 
 VARIABLES
   inUse,        \* len(tokens.ch)
@@ -164,6 +167,9 @@ MainParked ==
   \/ (mpc = "tick" /\ cur = MaxSess)
 Quiet == MainParked /\ \A s \in Sessions : HandlerParked(s)
 EnvOK == (~EnvAtQuiet) \/ Quiet
+FaultOK == ~GenNoFaults
+Relaying == {s \in Sessions : hpc[s] = "relaying"}
+HoldOK == GenHold = 0 \/ Cardinality(Relaying) >= GenHold \/ (cur = MaxSess /\ mpc = "tick")
 
 (* ---- main loop ---- *)
 GetInc ==                                   \* tokens.get(): atomic add, before blocking
@@ -190,15 +196,15 @@ NoOffer ==                                  \* "no match": stay in pollOffer, po
 ToRet == mpc' = "ret"
 
 BadBrokerResponse ==                        \* HTTP error, malformed JSON, error status, match without offer
-  /\ mpc = "polled" /\ EnvOK /\ ToRet
+  /\ mpc = "polled" /\ EnvOK /\ FaultOK /\ ToRet
   /\ UNCHANGED <<inUse, clients, cur, cls, sdp, hpc, released, owner, opened, closed, relayDialed, reported, nNoOffer, nTimeouts, pcase>>
 
 OfferUndecodable ==                         \* offer string that DeserializeSessionDescription refuses
-  /\ mpc = "polled" /\ EnvOK /\ ToRet
+  /\ mpc = "polled" /\ EnvOK /\ FaultOK /\ ToRet
   /\ UNCHANGED <<inUse, clients, cur, cls, sdp, hpc, released, owner, opened, closed, relayDialed, reported, nNoOffer, nTimeouts, pcase>>
 
 Offer(c, k) ==                              \* client match with relay URL class c and SDP kind k
-  /\ mpc = "polled" /\ EnvOK
+  /\ mpc = "polled" /\ EnvOK /\ (k = "good" \/ FaultOK)
   /\ cls' = [cls EXCEPT ![cur] = c] /\ sdp' = [sdp EXCEPT ![cur] = k]
   /\ mpc' = "check"
   /\ UNCHANGED <<inUse, clients, cur, hpc, released, owner, opened, closed, relayDialed, reported, nNoOffer, nTimeouts, pcase>>
@@ -231,7 +237,7 @@ MainGiveUp ==
      ELSE mpc' = "tick" /\ UNCHANGED owner
 
 AnswerFail ==                               \* "client gone", HTTP error or garbage on /answer ; pc.Close()
-  /\ mpc = "answer" /\ EnvOK /\ MainGiveUp
+  /\ mpc = "answer" /\ EnvOK /\ FaultOK /\ MainGiveUp
   /\ UNCHANGED <<inUse, clients, cur, cls, sdp, hpc, released, opened, relayDialed, reported, nNoOffer, nTimeouts, pcase>>
 
 AnswerOK ==
@@ -292,7 +298,7 @@ HandlerDial(s) ==                           \* websocket.DefaultDialer.Dial(rela
   /\ UNCHANGED <<inUse, clients, mpc, cur, cls, sdp, released, owner, opened, closed, reported, nNoOffer, nTimeouts, pcase>>
 
 RelayDialFail(s) ==
-  /\ hpc[s] = "dialing" /\ EnvOK
+  /\ hpc[s] = "dialing" /\ EnvOK /\ FaultOK
   /\ hpc' = [hpc EXCEPT ![s] = "ret"]
   /\ UNCHANGED <<inUse, clients, mpc, cur, cls, sdp, released, owner, opened, closed, relayDialed, reported, nNoOffer, nTimeouts, pcase>>
 
@@ -302,7 +308,7 @@ RelayAccept(s) ==
   /\ UNCHANGED <<inUse, clients, mpc, cur, cls, sdp, released, owner, opened, closed, relayDialed, reported, nNoOffer, nTimeouts, pcase>>
 
 RelayEnd(s) ==                              \* relay or client closes; copyLoop ends
-  /\ hpc[s] = "relaying" /\ (EnvOK \/ s \in closed)   \* a closed peer connection ends the copy loop by itself
+  /\ hpc[s] = "relaying" /\ ((EnvOK /\ HoldOK) \/ s \in closed)   \* a closed peer connection ends the copy loop by itself
   /\ hpc' = [hpc EXCEPT ![s] = "ret"]
   /\ UNCHANGED <<inUse, clients, mpc, cur, cls, sdp, released, owner, opened, closed, relayDialed, reported, nNoOffer, nTimeouts, pcase>>
 
